@@ -18,7 +18,17 @@ Inductive case :=
 | DiffFed (local remote : list fed_item) (last : N) (del ups : list (bytes * N))      (* datacenter, modify index *)
 | RoundACL (st remote : list acl_item) (ri last : N) (final : list (bytes * bytes * N * bool)) (* id, hash, content, local *)
 | RoundCfg (st remote : list cfg_item) (ri last : N) (final : list (ckey * N * N))             (* key, hash, content *)
-| RoundFed (st remote : list fed_item) (ri last : N) (final : list (bytes * N)).               (* datacenter, content *)
+| RoundFed (st remote : list fed_item) (ri last : N) (final : list (bytes * N))                (* datacenter, content *)
+(* policies / roles: the round as the state store lets it happen (unique names); ok = the round returned no error *)
+| RoundStore (st remote : list acl_item) (ri last : N) (final : list (bytes * bytes * N * bool)) (ok : bool)
+(* two rounds in a row, the second on the table the first left, with last := the index the first returned (ri) *)
+| Round2ACL (st remote : list acl_item) (ri last : N) (remote2 : list acl_item) (ri2 : N)
+            (final : list (bytes * bytes * N * bool))
+| Round2Cfg (st remote : list cfg_item) (ri last : N) (remote2 : list cfg_item) (ri2 : N) (final : list (ckey * N * N))
+| Round2Fed (st remote : list fed_item) (ri last : N) (remote2 : list fed_item) (ri2 : N) (final : list (bytes * N))
+(* tokens: round 1 lists [remote] but its batch read is answered from [batch]; round 2 as above against remote2 *)
+| TwoSnap (st remote batch : list acl_item) (ri last : N) (remote2 : list acl_item) (ri2 : N)
+          (final : list (bytes * bytes * N * bool)).
 
 Definition ckey_eqb := cfg_eqb.
 
@@ -39,8 +49,30 @@ Fixpoint multiset_eqb {A} (eqb : A -> A -> bool) (a b : list A) : bool :=
                end
   end.
 
+Definition acl_obs := map (fun x : acl_item => (it_id x, it_hash x, it_body x, it_local x)).
+Definition acl_obs_eqb (a b : bytes * bytes * N * bool) : bool :=
+  bytes_eqb (fst (fst (fst a))) (fst (fst (fst b))) && bytes_eqb (snd (fst (fst a))) (snd (fst (fst b)))
+  && N.eqb (snd (fst a)) (snd (fst b)) && Bool.eqb (snd a) (snd b).
+Definition cfg_obs := map (fun x : cfg_item => (it_id x, it_hash x, it_body x)).
+Definition cfg_obs_eqb (a b : ckey * N * N) : bool :=
+  ckey_eqb (fst (fst a)) (fst (fst b)) && N.eqb (snd (fst a)) (snd (fst b)) && N.eqb (snd a) (snd b).
+Definition fed_obs := map (fun x : fed_item => (it_id x, it_body x)).
+Definition fed_obs_eqb (a b : bytes * N) : bool := bytes_eqb (fst a) (fst b) && N.eqb (snd a) (snd b).
+
 Definition check (c : case) : bool :=
   match c with
+  | RoundStore st remote ri last final ok =>
+      let '(st', ok') := acl_round_store_m 0 ri last remote st in
+      Bool.eqb ok ok' && multiset_eqb acl_obs_eqb (acl_obs st') final
+  | Round2ACL st remote ri last remote2 ri2 final =>
+      multiset_eqb acl_obs_eqb (acl_obs (acl_round_m 0 ri2 ri remote2 (acl_round_m 0 ri last remote st))) final
+  | Round2Cfg st remote ri last remote2 ri2 final =>
+      multiset_eqb cfg_obs_eqb (cfg_obs (cfg_round_m 0 ri2 ri remote2 (cfg_round_m 0 ri last remote st))) final
+  | Round2Fed st remote ri last remote2 ri2 final =>
+      multiset_eqb fed_obs_eqb (fed_obs (fed_round_m 0 ri2 ri remote2 (fed_round_m 0 ri last remote st))) final
+  | TwoSnap st remote batch ri last remote2 ri2 final =>
+      multiset_eqb acl_obs_eqb
+        (acl_obs (acl_round_m 0 ri2 ri remote2 (acl_round_two_m 0 ri last remote batch st))) final
   | DiffACL local remote last del ups ls rs =>
       let d := acl_diff last local remote in
       list_eqb bytes_eqb (ids (d_del d)) del && list_eqb bytes_eqb (ids (d_ups d)) ups
